@@ -57,6 +57,15 @@ def check_table(groups, metrics, rows):
             if [r[0] for r in rows].index(name) == i and one[g][m] != vals[i]:
                 bad.append(f"get_one_subject({name})[{g}][{m}] = {one[g][m]} expected {vals[i]}")
     if all((g, m) in avgs for g in groups for m in metrics):
+        sd, sd0 = st.get_summary_dict(), st.get_summary_dict(include_across_group=False)
+        if sorted(sd.keys()) != sorted(list(groups) + ["across_groups"]) or sorted(sd0.keys()) != sorted(groups):
+            bad.append(f"get_summary_dict keys {sorted(sd.keys())} / {sorted(sd0.keys())}")
+        else:
+            for (g, m), vals in col.items():
+                fin = [v for v in vals if v is not None]
+                s = sd[g][m]
+                if not (_close(s.avg, avgs[(g, m)]) and s.min == min(fin) and s.max == max(fin)):
+                    bad.append(f"get_summary_dict()[{g}][{m}] = {s.avg, s.min, s.max}, expected the summary of this group and metric {avgs[(g, m)], min(fin), max(fin)}")
         ac = st.get_summary_across_groups()
         for m in metrics:
             xs = [avgs[(g, m)] for g in groups]
